@@ -68,10 +68,10 @@ class NoneObject:
     def __gt__(a, b):
         return False
 
-    def __lte__(a, b):
+    def __le__(a, b):
         return False
 
-    def __gte__(a, b):
+    def __ge__(a, b):
         return False
 
     def __noteq__(a, b):
@@ -504,10 +504,10 @@ class TypeMatcherInstance:
     def __gt__(self, other):
         return self._op(operator.gt, other)
 
-    def __lte__(self, other):
+    def __le__(self, other):
         return self._op(operator.le, other)
 
-    def __gte__(self, other):
+    def __ge__(self, other):
         return self._op(operator.ge, other)
 
     def __noteq__(self, other):
